@@ -124,8 +124,16 @@ class C20(CheckBase):
                 lat2, lon2 = lat1, lon1
             p = {'lat1': lat1, 'lon1': lon1, 'lat2': lat2, 'lon2': lon2}
         else:
-            p = {'lat1': ang(rng.choice([85, 85, 89])), 'lon1': ang(179), 'azimuth1to2': abs(ang(359)) if rng.random() < 0.85 else ang(359),
-                 'ell_dist': rng.choice([round(rng.uniform(1, 2e6), 3), 54972.271, float(rng.randrange(1, 100000)), 0.001, 1.9e7])}
+            az = abs(ang(359)) if rng.random() < 0.85 else ang(359)
+            if rng.random() < 0.15:
+                az = rng.choice([0.0, 90.0, 180.0, 270.0, 360.0])     # cardinal azimuths (same digits in dd and HP)
+            lat1, lon1 = ang(rng.choice([85, 85, 89])), ang(179)
+            if rng.random() < 0.15:
+                # round coordinates: multiples of 0.05 / 0.25 degrees (HP: whole minutes)
+                lat1 = rng.choice([-1, 1]) * rng.randrange(0, 80) + rng.choice([0.0, 0.25, 0.5, 0.75, 0.05, 0.3, 0.45])
+                lon1 = rng.choice([-1, 1]) * rng.randrange(0, 179) + rng.choice([0.0, 0.25, 0.5, 0.75, 0.05, 0.3, 0.45])
+            p = {'lat1': lat1, 'lon1': lon1, 'azimuth1to2': az,
+                 'ell_dist': rng.choice([round(rng.uniform(1, 2e6), 3), 54972.271, float(rng.randrange(1, 100000)), 0.001, 1.9e7, 0.0])}
         return {'rid': rid, 'ep': ep, 'from': fa, 'to': ta, 'params': dict((k, repr(float(v))) for k, v in p.items())}
 
     REQ_TYPES = [('index', None, None)] + [(ep, fa, ta) for ep in ('vincinv', 'vincdir') for fa in ('dd', 'dms', None)
